@@ -8,6 +8,10 @@ LABELS = ("c09.",)
 
 
 def run(ctx):
+    for cfgname in ("RetryModel.cfg", "RetryModel2.cfg"):
+        r = ctx.model_check("Resolver/RetryModel.tla", cfgname, workers=8, timeout=600)
+        if r.violation:
+            raise vlib.MachineryError("RetryModel.tla violates %s" % r.violation)
     if ctx.quick:
         gens = [{"module": "Gen_C09.tla", "cfg": "Gen_C09_quick.cfg", "name": "bfs"}]
     else:
